@@ -460,7 +460,8 @@ func Counts(n int) dump.File {
 	for i := 0; i < n; i++ {
 		fmt.Fprintf(&sb, " leaf k%d { type string; }", i)
 	}
-	sb.WriteString(" } leaf pl { type pt; } leaf ul { type ut; } leaf ml { type string;")
+	sb.WriteString(` } typedef pd { type pt { pattern "x"; } } leaf pa { type pt { pattern "x"; } } leaf pb { type pt { pattern "x"; } } leaf pc { type pt { pattern "y"; } } leaf pe { type pd; } leaf pf { type pd { pattern "y"; } }`)
+	sb.WriteString(" leaf pl { type pt; } leaf ul { type ut; } leaf ml { type string;")
 	for i := 0; i < n; i++ {
 		fmt.Fprintf(&sb, ` must "%d = %d"; m:e x%d;`, i, i, i)
 	}
